@@ -1,6 +1,7 @@
 package main
 
 import (
+	"bytes"
 	"crypto/sha512"
 	"fmt"
 	"reflect"
@@ -56,6 +57,20 @@ func c18Vmsa(c *Ctx) {
 			h := sha512.Sum384(page)
 			c.Case(op, "ok "+hx(h[:]), true)
 			c.Count("vmsa/" + what + "/ok")
+			// the encoding is a function of the value alone: the same save area written over a buffer that
+			// held something else (a page that staged firmware before) gives the same SizeofVmsa bytes
+			dirty := bytes.Repeat([]byte{0xa5}, 4096)
+			var derr error
+			if dp, _, _ := Guard(func() { derr = sev.PutVmsa(v, dirty) }); dp || derr != nil {
+				c.Find("c18/PutVmsa/encoding-depends-on-buffer/outcome", "sev.PutVmsa succeeds on a zeroed buffer and fails on a used one for the same save area", op)
+			} else if !bytes.Equal(dirty[:sev.SizeofVmsa], page[:sev.SizeofVmsa]) {
+				i := 0
+				for dirty[i] == page[i] {
+					i++
+				}
+				c.Find("c18/PutVmsa/encoding-depends-on-buffer/bytes", fmt.Sprintf("the VMSA bytes depend on what the output buffer held before (first difference at offset %#x): reserved or unwritten ranges are not set", i), op)
+			}
+			c.Count("vmsa/dirty-buffer-compared")
 			if mustRefuse {
 				c.Find("c18/PutVmsa/strict/"+what+"-accepted", "sev.PutVmsa accepted a save area whose "+what+" ("+set+rset+") must be refused", op)
 			}
